@@ -120,8 +120,11 @@ ADD2 = {
  "C19": ("error-description census; printf-format dataflow; errors.Is target rule", "Every error the interpreter raises carries a description; run-time text is never used as a printf format (messages containing '%' are reported verbatim); no errors.Is test is dead by construction."),
 }
 ADD3 = {
- "C08": ("abstract evaluation of the Array [[DefineOwnProperty]] (15.4.5.1) on all arrays of length 0..3 with absent / configurable / non-configurable elements", "Truncation through `length` stops at the first non-configurable element and leaves length one above it, a read-only length takes effect after the truncation, a non-writable length blocks growth but accepts its own value, and an index at or above length grows it."),
+ "C03": ("scanner sibling rules (peek / read agreement, line terminators inside multi-line comments, ASI after a dot member, where regexp flags come from)", "peek() looks at the byte the next read() consumes; a multi-line comment containing a line terminator raises the newline flag; the name of a dot member arms automatic semicolon insertion; (known finding) regexp flags are taken from the next token."),
+ "C04": ("property-name key-or-error rule; scanner sibling rules", "The object-literal property-name reader returns a key or reports a syntax error on every path."),
+ "C08": ("abstract evaluation of the Array [[DefineOwnProperty]] (15.4.5.1) on all arrays of length 0..3 with absent / configurable / non-configurable elements", "Truncation through `length` stops at the first non-configurable element and leaves length one above it, a read-only length takes effect after the truncation, a non-writable length blocks growth but accepts its own value, and an index at or above length grows it. concat / map / slice / splice keep holes (the absent side of every hasProperty branch that fills a result array writes the emptyValue marker); reduce / reduceRight never return an unassigned accumulator; the sort's sign helper does not consult IsInf."),
  "C13": ("must-pass-through of argument conversions in the Math built-ins", "Every Math function converts each of its arguments before computing: no return skips a conversion, no loop over the argument list is left early."),
+ "C01": ("for-in shadowing rule", "The for-in evaluator keeps the set of names seen along the prototype chain (non-enumerable own names included), so no name is visited twice and shadowed names stay hidden."),
  "C07": ("abstract evaluation of toPropertyDescriptor + [[DefineOwnProperty]] over every reachable representation of a property and all 1728 descriptor shapes; abstract evaluation of [[Put]]/[[CanPut]]/[[Delete]] over own x prototype representations", "Every edge of the state graph of one property under Object.defineProperty agrees with ES5 8.10.5 + 8.12.9 (TypeError or resulting attributes and payload), hence every history of definitions on it; the Array (15.4.5.1) and arguments-object (10.6) variants agree with their algorithms on small arrays / a mapped and an unmapped index; Object.getOwnPropertyDescriptor reports exactly the stored attributes (8.10.4), the six integrity built-ins (15.2.3.8-13) change and report exactly what their algorithms say on objects with two properties in reachable representations, Object.defineProperties converts all descriptors before defining any; assignment and deletion agree with 8.12.4-5 and 8.12.7 for every combination of own property, prototype property, extensibility and strictness (which setter is called with which receiver included)."),
  "C02": ("depth-accounting must-pass-through rule; third-party call census", "Every path of (*object).call into a callee enters a scope first (or is the direct-eval branch, whose built-in counts its own nesting), so the stack depth limit sees every script-level call; every call into third-party code is recovered, self-recovering or reviewed."),
  "C17": ("native-closure capture rule; mutable-payload clone rule", "No native function literal captures the runtime, an object or a stash of the runtime that created it (payloads are copied verbatim); every pointer payload whose fields change after construction gets a fresh wrapper in the copy."),
